@@ -12,7 +12,9 @@
 (* stages as coded TLC is the witness generator: the input shapes for which two schedules     *)
 (* give different results parametrise the real inputs replayed under the map-order scheduler. *)
 (* Faults seeds design faults (no copy before a language chain, merge overwriting, merge      *)
-(* dropping): with any of them TLC must find the C07 invariants violated (model self-test).   *)
+(* dropping, a builder rule that keeps what it resolved for the language before, a builder    *)
+(* post-processing step that keeps what it recorded for the package before): with any of them *)
+(* TLC must find the C07 invariants violated (model self-test).                               *)
 (* Growth (DESIGN Appendix E.4 / E.5), same pattern, separate modules so that the C03/C07 configurations keep their     *)
 (* size: PipelineInputs.tla refines Load/Filter/Consolidate/Common (gating by `if`, parameters, per-input filters and    *)
 (* transformations, metadata); PipelineFiles.tla refines Emit (roots, repository and extra-file templates, disjointness). *)
@@ -26,7 +28,7 @@ vars == <<inputs, cfg, pc, loaded, S, handed, ctx, files, dir, err, todo, cur, s
 obs  == <<inputs, cfg, pc, loaded, S, handed, ctx, files, dir, err, todo, cur>>   \* VIEW: everything but sched
 
 Stages == {"interpolate", "defnames", "consolidate", "setdefault", "langloop", "infer", "compose"}
-FaultNames == {"nocopy", "overwrite", "dropgroup"}
+FaultNames == {"nocopy", "overwrite", "dropgroup", "rulememo", "carry"}
 Fields == {"kind", "type"}
 
 Empty == [x \in {} |-> 0]
@@ -156,7 +158,13 @@ Common ==
 (*                (as coded: the first candidate in map order), then leave a trail *)
 (*   chain("ts"): leaves a trail only                                              *)
 (* Builders: one per object, then ComposeBuilders appends one composed builder per *)
-(* plugin type (as coded: in map order).                                           *)
+(* plugin type (as coded: in map order). "builders are re-derived per language     *)
+(* from that language's schemas": a builder is <<package, object, resolved>>, where *)
+(* `resolved` stands for everything the builder rules resolve against the schemas  *)
+(* they are handed (the types along an assignment path): it is a function of the   *)
+(* object AS THE LANGUAGE'S CHAIN LEFT IT (its trail and discriminator).           *)
+(* Fault rulememo: the rules are shared by the language iterations and keep what    *)
+(* they resolved per object - every later language gets the first one's builders.  *)
 Chain(L, schemas, candOrder) ==
   [j \in DOMAIN schemas |->
      [schemas[j] EXCEPT !.objs = [n \in DOMAIN schemas[j].objs |->
@@ -165,7 +173,7 @@ Chain(L, schemas, candOrder) ==
             d == IF L = "go" /\ hits # <<>> THEN hits[1] ELSE o.disc
         IN [o EXCEPT !.disc = d, !.trail = o.trail \o <<L>>]]]]
 BuildersOf(schemas, composeOrder) ==
-  [plain |-> UNION {{<<schemas[j].pkg, n>> : n \in DOMAIN schemas[j].objs} : j \in DOMAIN schemas},
+  [plain |-> UNION {{<<schemas[j].pkg, n, <<schemas[j].objs[n].trail, schemas[j].objs[n].disc>>>> : n \in DOMAIN schemas[j].objs} : j \in DOMAIN schemas},
    composed |-> composeOrder]
 
 NextLang(pi) == IF "langloop" \in AsCoded THEN pi[1] ELSE Canon(todo)[1]
@@ -175,7 +183,8 @@ ForLanguage ==
   /\ \E piL \in Draws("langloop", todo), piC \in Draws("infer", Fields), piB \in Draws("compose", cfg.compose) :
        LET L == NextLang(piL)
            out == Chain(L, S, Order("infer", Fields, piC))
-           b == IF cfg.builders THEN BuildersOf(out, Order("compose", cfg.compose, piB)) ELSE [plain |-> {}, composed |-> <<>>]
+           own == IF cfg.builders THEN BuildersOf(out, Order("compose", cfg.compose, piB)) ELSE [plain |-> {}, composed |-> <<>>]
+           b == IF "rulememo" \in Faults /\ cur # "none" THEN ctx[cur].B ELSE own
        IN /\ ctx' = ctx @@ (L :> [S |-> out, B |-> b])
           /\ S' = IF "nocopy" \in Faults THEN out ELSE S       \* the chain works on a copy: the shared schemas stay
           /\ cur' = L
@@ -185,12 +194,19 @@ ForLanguage ==
   /\ UNCHANGED <<inputs, cfg, loaded, handed, files, dir, err>>
 
 (* Emit(L): one file per package (types + builders of that package), one shared runtime file. *)
+(* The builders are post-processed package after package, builder after builder (guards, ...): what is recorded  *)
+(* while doing so is named relative to the builder, so the names of two packages with same-named objects COINCIDE. *)
+(* Requirement: nothing recorded for one package reaches the next (`guards` = the package's own object names).     *)
+(* Fault carry: the record is not reset - the names the preceding package also has count as already handled.       *)
 FilesOf(L, c) ==
-  LET pkgFile(j) == [objs |-> c.S[j].objs,
+  LET own(j) == {b[2] : b \in {x \in c.B.plain : x[1] = c.S[j].pkg}}
+      before(j) == IF "carry" \in Faults /\ j > 1 THEN own(j - 1) ELSE {}
+      pkgFile(j) == [objs |-> c.S[j].objs,
                      builders |-> {b \in c.B.plain : b[1] = c.S[j].pkg},
+                     guards |-> own(j) \ before(j),
                      composed |-> c.B.composed]
   IN [path \in {<<dir, L, c.S[j].pkg>> : j \in DOMAIN c.S} \cup {<<dir, L, "runtime">>} |->
-        IF path[3] = "runtime" THEN [objs |-> Empty, builders |-> {}, composed |-> <<>>]
+        IF path[3] = "runtime" THEN [objs |-> Empty, builders |-> {}, guards |-> {}, composed |-> <<>>]
         ELSE pkgFile(CHOOSE j \in DOMAIN c.S : c.S[j].pkg = path[3])]
 
 Emit ==
